@@ -14,7 +14,7 @@
    scale-misalignment entries in loop order;  targets = what each state was created for, in
    state order;  state_vector b E = the entries of b and E = T - I listed in state order;
    bias_supported / sm_supported = zero outside the enabled entries. *)
-From Coq Require Import List String Arith Bool ZArith QArith Qcanon Sorted.
+From Coq Require Import List String Arith Bool ZArith QArith Qcanon Sorted Lia.
 From PV Require Import Model.SensorModel Proofs.SensorModelProofs.
 Import ListNotations.
 Open Scope Qc_scope.
@@ -444,18 +444,14 @@ Example C14_ex_supported :
   nonneg3 ex_noise /\ nonneg3 ex_walk.
 Proof.
   split; [|split; [|split; [|split]]].
-  - intros a Ha Hp. destruct a as [|[|[|a]]]; try (exfalso; revert Ha; apply Nat.lt_irrefl || fail);
-      try discriminate Hp; try (apply Qc_is_canon; reflexivity).
-    exfalso. do 3 apply Nat.succ_lt_mono in Ha. inversion Ha.
+  - intros a Ha Hp. destruct a as [|[|[|a]]]; [| | |exfalso; lia];
+      first [vm_compute in Hp; discriminate Hp|apply Qc_is_canon; reflexivity].
   - intros o i Ho Hi Hp.
-    destruct o as [|[|[|o]]]; [| | |exfalso; do 3 apply Nat.succ_lt_mono in Ho; inversion Ho];
-    (destruct i as [|[|[|i]]]; [| | |exfalso; do 3 apply Nat.succ_lt_mono in Hi; inversion Hi]);
-    try discriminate Hp; apply Qc_is_canon; reflexivity.
+    destruct o as [|[|[|o]]]; [| | |exfalso; lia]; (destruct i as [|[|[|i]]]; [| | |exfalso; lia]);
+      first [vm_compute in Hp; discriminate Hp|apply Qc_is_canon; reflexivity].
   - intro E. apply (f_equal this) in E. vm_compute in E. discriminate E.
-  - intros a Ha. destruct a as [|[|[|a]]]; try (vm_compute; discriminate).
-    exfalso. do 3 apply Nat.succ_lt_mono in Ha. inversion Ha.
-  - intros a Ha. destruct a as [|[|[|a]]]; try (vm_compute; discriminate).
-    exfalso. do 3 apply Nat.succ_lt_mono in Ha. inversion Ha.
+  - intros a Ha. destruct a as [|[|[|a]]]; [| | |exfalso; lia]; vm_compute; discriminate.
+  - intros a Ha. destruct a as [|[|[|a]]]; [| | |exfalso; lia]; vm_compute; discriminate.
 Qed.
 
 (* the masks of the example simulator parameters are the estimator's (hypotheses of names_agree) *)
@@ -465,12 +461,10 @@ Example C14_ex_names :
   columns ex_p = ["bias_x"; "bias_z"; "sm_xy"; "sm_yx"; "sm_zz"]%string.
 Proof.
   split; [|split; [|vm_compute; reflexivity]].
-  - intros a Ha. destruct a as [|[|[|a]]]; try (vm_compute; reflexivity).
-    exfalso. do 3 apply Nat.succ_lt_mono in Ha. inversion Ha.
+  - intros a Ha. destruct a as [|[|[|a]]]; [| | |exfalso; lia]; vm_compute; reflexivity.
   - intros o i Ho Hi.
-    destruct o as [|[|[|o]]]; [| | |exfalso; do 3 apply Nat.succ_lt_mono in Ho; inversion Ho];
-    (destruct i as [|[|[|i]]]; [| | |exfalso; do 3 apply Nat.succ_lt_mono in Hi; inversion Hi]);
-    vm_compute; reflexivity.
+    destruct o as [|[|[|o]]]; [| | |exfalso; lia]; (destruct i as [|[|[|i]]]; [| | |exfalso; lia]);
+      vm_compute; reflexivity.
 Qed.
 
 (* undo, H x = error, accumulation and read-back on the example, irregular stamps, both types *)
@@ -486,7 +480,7 @@ Example C14_ex_run :
       opt_eqb (fun a b => M3_eqb (e_T a) (e_T b) && V3_eqb (e_b a) (e_b b))
               (update m x reset) (Some (mk_est ex_T ex_b)) = true /\
       sqrt_raw ex_ts <> None /\
-      dt_used ex_ts = Some (map (dy 16) [4; 4; 1; 16]%Z) /\
+      opt_eqb (list_eqb Qc_eqb) (dt_used ex_ts) (Some (map (dy 16) [4; 4; 1; 16]%Z)) = true /\
       (* rate: H(r) x = out - r on every row *)
       opt_eqb (list_eqb (list_eqb Qc_eqb))
         (option_map (fun out => map (fun o_r => v3_list (sub3 (fst o_r) (snd o_r))) (combine out ex_rs))
@@ -508,7 +502,7 @@ Example C14_ex_run :
       | _, _ => False
       end
   end.
-Proof. vm_compute. repeat split; discriminate. Qed.
+Proof. vm_compute. repeat split; try reflexivity; discriminate. Qed.
 
 (* variances on the example: dt = 1/16 with root 1/4; noisy axis z, walking axis z *)
 Example C14_ex_variances :
